@@ -36,9 +36,9 @@ EXPLANATION = ("every exceptional exit the executor enumerates along the typing 
 def obligations(ctx):
     obs = ctx.verify(FUNCTIONS)
     keep = [o for o in obs if any(k in o.name for k in ("raises", "cover", "call-pre", "divisor", "true-iff", "inv_cache"))]
-    errors_ok = error_taxonomy(ctx)
+    errors_ok = ctx.part(error_taxonomy)
     from props._shared import typing_state_census
-    return list(keep + errors_ok) + [typing_state_census(ctx, 'C17')]
+    return list(keep + errors_ok) + ctx.part(lambda c_: [typing_state_census(c_, 'C17')], 'typing-state census')
 
 
 def error_taxonomy(ctx):
